@@ -496,7 +496,7 @@ theorem uc : ∀ (S : Ty) (cx : Cx) (fx : Fx) (d r : V), WF S → unpack O cx fx
       simp only [WF] at hw
       rw [unpack] at h
       rw [conf]
-      by_cases hcond : (cx.fixK2 && ts.any (fun t => t.isScalar && t.scalarCls == classOf d)) = true
+      by_cases hcond : ((cx.fixK2 || isNone d) && ts.any (fun t => t.isScalar && t.scalarCls == classOf d)) = true
       · simp only [hcond, if_true] at h
         cases h
         simp only [Bool.and_eq_true, List.any_eq_true] at hcond
@@ -627,6 +627,16 @@ theorem uc : ∀ (S : Ty) (cx : Cx) (fx : Fx) (d r : V), WF S → unpack O cx fx
         simp [pure, Except.pure] at h; subst h
         rw [conf]; simp [ucNT fs cx fx d 0 (asD.getD cx.ntAsDict) rs hwn hr]
       · rw [if_neg hde] at h
+        by_cases hasd : asD.getD cx.ntAsDict = true
+        · rw [if_pos hasd] at h
+          obtain ⟨rs, hr, h⟩ := bind_ok_inv h
+          by_cases hall : rs.all Option.isSome = true
+          · rw [if_pos hall] at h
+            simp [pure, Except.pure] at h; subst h
+            obtain ⟨_, hc⟩ := ucNTk fs cx fx d (fs.length - defs.length) defs rs hwn (by omega) hdef hr
+            rw [conf]; simp [hc hall]
+          · rw [if_neg hall] at h; simp [raisePy] at h
+        rw [if_neg hasd] at h
         obtain ⟨rs, hr, h⟩ := bind_ok_inv h
         by_cases hshort : rs.length + defs.length < fs.length
         · rw [if_pos hshort] at h; simp [raisePy] at h
@@ -717,6 +727,69 @@ theorem ucNT : ∀ (fs : List (String × Ty)) (cx : Cx) (fx : Fx) (v : V) (i : I
       simp [pure, Except.pure] at h; subst h
       rw [confN]
       simp [uc t cx fx x a hw.1 ha, ucNT fs cx fx v (i + 1) asD rest hw.2 hrest]
+
+theorem ucNTk : ∀ (fs : List (String × Ty)) (cx : Cx) (fx : Fx) (v : V) (nreq : Nat) (defs : List V) (rs : List (Option V)), WFN fs →
+    nreq + defs.length = fs.length → confN (fs.drop nreq) defs = true →
+    unpackNTk O cx fx fs nreq defs v = .ok rs →
+    rs.length = fs.length ∧ (rs.all Option.isSome = true → confN fs (rs.filterMap id) = true)
+  | [], _, _, _, _, _, rs, _, _, _, h => by rw [unpackNTk] at h; cases h; simp [confN]
+  | (n, t) :: fs, cx, fx, v, nreq, defs, rs, hw, hlen, hdef, h => by
+      simp only [WFN] at hw
+      rw [unpackNTk] at h
+      -- what the recursive call gets, and what the default of this member is
+      have hrec : ∀ r, unpackNTk O cx fx fs (nreq - 1) (if nreq = 0 then defs.tail else defs) v = .ok r →
+          r.length = fs.length ∧ (r.all Option.isSome = true → confN fs (r.filterMap id) = true) := by
+        intro r hr
+        cases nreq with
+        | zero =>
+          cases defs with
+          | nil => simp at hlen
+          | cons d ds =>
+            simp only [List.drop_zero, confN, Bool.and_eq_true] at hdef
+            exact ucNTk fs cx fx v 0 ds r hw.2 (by simpa using hlen) (by simpa using hdef.2) (by simpa using hr)
+        | succ k =>
+          exact ucNTk fs cx fx v k defs r hw.2 (by simp at hlen ⊢; omega) (by simpa using hdef) (by simpa using hr)
+      have hdfl : ∀ dv, (if nreq = 0 then defs.head? else none) = some dv → conf t dv = true := by
+        intro dv hdv
+        cases nreq with
+        | zero =>
+          cases defs with
+          | nil => simp at hdv
+          | cons d ds =>
+            simp only [List.drop_zero, confN, Bool.and_eq_true] at hdef
+            simp at hdv; subst hdv; exact hdef.1
+        | succ k => simp at hdv
+      cases hx : (if t.constUnpack = true then (pure V.none : R V) else pyGetItemStr v n) with
+      | error e =>
+        rw [hx] at h
+        simp only [] at h
+        split at h
+        · obtain ⟨r, hr, h⟩ := bind_ok_inv h
+          simp [pure, Except.pure] at h; subst h
+          obtain ⟨hl, hc⟩ := hrec r hr
+          refine ⟨by simp [hl], ?_⟩
+          intro hall
+          simp only [List.all_cons, Bool.and_eq_true] at hall
+          cases hd : (if nreq = 0 then defs.head? else none) with
+          | none => rw [hd] at hall; simp at hall
+          | some dv =>
+            simp only [hd, List.filterMap_cons, id]
+            rw [confN]
+            simp [hdfl dv hd, hc hall.2]
+        · cases h
+      | ok x =>
+        rw [hx] at h
+        simp only [] at h
+        obtain ⟨a, ha, h⟩ := bind_ok_inv h
+        obtain ⟨r, hr, h⟩ := bind_ok_inv h
+        simp [pure, Except.pure] at h; subst h
+        obtain ⟨hl, hc⟩ := hrec r hr
+        refine ⟨by simp [hl], ?_⟩
+        intro hall
+        simp only [List.all_cons, Option.isSome_some, Bool.true_and] at hall
+        simp only [List.filterMap_cons, id]
+        rw [confN]
+        simp [uc t cx fx x a hw.1 ha, hc hall]
 
 theorem ucNTd : ∀ (fs : List (String × Ty)) (cx : Cx) (fx : Fx) (v : V) (i : Int) (asD : Bool) (rs : List V), WFN fs →
     unpackNTd O cx fx fs v i asD = .ok rs → rs.length ≤ fs.length ∧ confN (fs.take rs.length) rs = true
